@@ -1300,12 +1300,21 @@ func (sc *serverConn) handleFrame(strm *Stream, fr *FrameHeader) error {
 
 func (sc *serverConn) handleHeaderFrame(strm *Stream, fr *FrameHeader) error {
 	// A second header block on a stream whose request headers are already done
-	// is a trailer, which must carry both END_STREAM and END_HEADERS. Its
+	// is a trailer, which must carry END_STREAM. Its
 	// fields join the request headers, which is the nearest thing fasthttp's
 	// request has to a place for them.
 	// https://httpwg.org/specs/rfc7540.html#rfc.section.8.1
-	if strm.headersFinished && !fr.Flags().Has(FlagEndStream|FlagEndHeaders) {
-		return NewGoAwayError(ProtocolError, "stream not open")
+	//
+	// END_HEADERS does not have to be on the same frame: like any header block
+	// a trailer can go on in CONTINUATION frames. While it does the stream's
+	// headers are not finished again, which keeps the request from being
+	// dispatched with half of its trailers.
+	if strm.headersFinished {
+		if fr.Type() != FrameHeaders || !fr.Flags().Has(FlagEndStream) {
+			return NewGoAwayError(ProtocolError, "stream not open")
+		}
+
+		strm.headersFinished = false
 	}
 
 	if headerFrame, ok := fr.Body().(*Headers); ok && headerFrame.Stream() == strm.ID() {
